@@ -16,7 +16,7 @@ RULE = ("case = one execution of a traced plan (every yield records the value or
         "monitors), finalize_wrapper, relative_set/reset_positions, set_run_key and msg/plan mutators, uninterrupted and "
         "with pause/resume or suspension (with pre/post plans) landing after EVERY loop handle; the received value must be "
         "the response of the latest execution of that very message: the new run's uid for open_run, the device's own "
-        "reading/status/list object (identity) for read/set/trigger/kickoff/complete/stage/unstage/locate, True for wait, "
+        "status object (identity) for set/trigger/kickoff/complete, the device's reading/location/list (equality) for read/locate/stage/unstage, True for wait, "
         "the flag for rewindable, a working token for subscribe, the payload for collect, None otherwise; RE()/resume() "
         "return the uids of the runs opened so far in order, and with call_returns_result=True the plan's return value, "
         "exit status and interrupted flag; distinct = (plan, wrapper, command kind, interrupted y/n, outcome)")
@@ -182,7 +182,9 @@ def judge(ex, wrapper, ref_nm):
             if kind[0] == "is":
                 counters["identity_checks"] += 1
                 # a message re-executed by a rewind has several executions; the response of any of them is "its own"
-                if not any(k[0] == "is" and r is k[1] for _, k in execs):
+                # status objects by identity (the plan waits on them); readings / locations / staged lists by equality
+                same = (lambda a, b: a is b) if cmd in ("set", "trigger", "kickoff", "complete") else (lambda a, b: a == b)
+                if not any(k[0] == "is" and same(r, k[1]) for _, k in execs):
                     bad = f"received {type(r).__name__} {str(r)[:60]!r}, the device returned {str(kind[1])[:60]!r}"
             elif kind[0] == "eq":
                 if not any(k[0] == "eq" and r == k[1] and (k[1] is not True or r is True) for _, k in execs):
